@@ -19,6 +19,11 @@ type monitors struct {
 	sizes    []int64 // sizes of the mirror checkpoints written so far (effective Replaces)
 	fails    int
 
+	// which log this monitor judges (several mirrored logs live in one witness instance)
+	prefix     string   // "mirror/<hash(origin)>/"
+	pkey, mkey [32]byte // its pending and mirror registers
+	side       bool     // not the log of the event lines: the messages name the origin
+
 	// monotone: "N never decreases", separately for the mirror register, the published checkpoint
 	// object and the cosignatures released in 200 answers (in the order they happen)
 	maxLock, maxPub, maxSig int64
@@ -56,7 +61,7 @@ func (m *monitors) released(size int64) {
 // mirror register (s.mu held)
 func (m *monitors) public(s *sim, data []byte) {
 	var problems []string
-	rec := s.locks[s.mkey]
+	rec := s.locks[m.mkey]
 	if !bytes.Equal(rec, data) {
 		pub, _, _, _ := parseNote(data)
 		what := "the empty register"
@@ -90,6 +95,9 @@ func (m *monitors) line(s *sim, name string, problems []string) {
 		problems = append(problems[:6], fmt.Sprintf("... %d more", len(problems)-6))
 	}
 	text := fmt.Sprintf("seed=%d scenario=%s: ", m.seed, m.scenario)
+	if m.side {
+		text += "log " + m.log.origin + ": "
+	}
 	for i, p := range problems {
 		if i > 0 {
 			text += "; "
@@ -141,12 +149,12 @@ func (m *monitors) audit(s *sim, c ckpt) (problems []string) {
 		bad("mirror checkpoint %d: root %x is not the RFC 6962 hash %x of the first %d entries", N, c.root, root, N)
 	}
 	get := func(t tlog.Tile) ([]byte, tlog.Tile, bool) {
-		if o, ok := s.objects[s.prefix+torchwood.TilePath(t)]; ok {
+		if o, ok := s.objects[m.prefix+torchwood.TilePath(t)]; ok {
 			return o.data, t, true
 		}
 		if t.W < 256 {
 			t.W = 256
-			if o, ok := s.objects[s.prefix+torchwood.TilePath(t)]; ok {
+			if o, ok := s.objects[m.prefix+torchwood.TilePath(t)]; ok {
 				return o.data, t, true
 			}
 		}
@@ -212,7 +220,7 @@ func (m *monitors) servable(s *sim, newNote []byte, name string) {
 	if nlog == 0 || nmirror == 0 {
 		problems = append(problems, fmt.Sprintf("size %d: mirror checkpoint lacks the log's or the mirror's signature", c.size))
 	}
-	if pb := s.locks[s.pkey]; len(pb) == 0 {
+	if pb := s.locks[m.pkey]; len(pb) == 0 {
 		problems = append(problems, fmt.Sprintf("size %d: mirror checkpoint written with an empty pending register", c.size))
 	} else if p, _, _, ok := parseNote(pb); !ok || c.size > p.size {
 		problems = append(problems, fmt.Sprintf("size %d: ahead of the pending register (%d)", c.size, p.size))
@@ -231,7 +239,7 @@ func (m *monitors) servable(s *sim, newNote []byte, name string) {
 func (m *monitors) final(s *sim) {
 	s.mu.Lock()
 	defer s.mu.Unlock()
-	b := s.locks[s.mkey]
+	b := s.locks[m.mkey]
 	if len(b) == 0 {
 		m.line(s, "final", nil)
 		return
